@@ -99,6 +99,11 @@ func PlayGrid(tier string) []*Config {
 	}
 	add(cfg([]int64{3, 2, 4}, 0, 1, 2, 0, false, 1, "no", "r52", 2, 2, "standard", "classes"))
 	add(cfg([]int64{3, 4, 2}, 1, 1, 2, 0, false, 0, "no", "t52", 4, 3, "standard", "classes"))
+	// "table style" short deck: the standard ranking table played with the 36-card deck
+	for _, br := range vectors(2, []int64{2, 5}) {
+		add(cfg(br, 0, 1, 2, 0, false, 0, "no", "r36", 2, 0, "standard", "classes"))
+	}
+	add(cfg([]int64{3, 4, 2}, 0, 1, 2, 0, false, 1, "no", "t36", 2, 0, "standard", "classes"))
 	// short deck and 4-hole-cards variants
 	for _, br := range vectors(2, []int64{2, 5}) {
 		add(cfg(br, 0, 1, 2, 0, false, 0, "no", "f36", 2, 0, "short", "all"))
